@@ -475,6 +475,19 @@ func tailN(l []string, n int) []string {
 }
 
 func maybeIdle(s *chainsim.Sim, run *vlib.Run, r *vlib.Rand) {
+	if !chainsim.PurgeUnspendable && r.Intn(12) == 0 {
+		// the operator's "purge" command while a snapshot save has just been started: records disappear and are rewritten
+		// under the writer's feet unless it is stopped first (from here on the node may or may not hold unspendable
+		// outputs: chainsim.PurgedByHand)
+		started := s.N.Ch.Idle()
+		s.N.Ch.Unspent.PurgeUnspendable(true)
+		chainsim.PurgedByHand = true
+		run.Inc("operator_purge_commands")
+		if started {
+			run.Inc("operator_purge_commands_right_after_a_save_was_started")
+		}
+		return
+	}
 	switch r.Intn(6) {
 	case 0, 1:
 		if s.N.Ch.Idle() {
